@@ -46,6 +46,11 @@ func rawResponder(handler http.Handler) http.Handler {
 		snapshotHeaders := respWriter.Header().Clone()
 		rawResponder := &rawResponseWriter{respWriter: respWriter}
 		ctx := context.WithValue(req.Context(), rawResponseKey{}, rawResponder)
+		if req.Trailer == nil {
+			// Unannounced trailers are stored in the server's request when its body is
+			// read: make sure the copy made here shares the map they are stored in.
+			req.Trailer = http.Header{}
+		}
 		req = req.WithContext(ctx)
 		handler.ServeHTTP(rawResponder, req)
 		rawResponder.finish(snapshotHeaders)
